@@ -76,6 +76,25 @@ add("C17", "exploration", "bounded exhaustive enumeration of skip-item placement
     "For template grammars (EBNF shapes, left recursion, %skip/%push/%pop state-skip template; LL and LALR) and a sample of the enumerated grammars, every word up to length n and every placement of up to two skip items (blank, LF, tab, line comment, block comments, state-skipped tokens) into its gaps: verdict and action trace equal those of the undecorated word, on_comment receives exactly the comments in order, the tree leaves spell the input.",
     BIND)
 
+add("C18", "exploration", "bounded exhaustive enumeration of grammars with same-text terminals; cross-artefact number equality",
+    "Every ordered pair (and triples) of terminals from a pool with equal texts in different quoting styles and lookaheads in 10 skeletons, scanner-state configurations, %skip templates and a slice of the enumerated spaces, LL and LALR: the number the scanner! rules give each terminal identity (first-occurrence order) must be the number used by PRODUCTIONS, the export model productions and terminal table; automata / LR tables, skip lists and transitions may only refer to terminals valid there.",
+    BIND)
+add("C21", "translation_validation", "exhaustive enumeration of programs (grammars); field-by-field comparison of three encodings of the same parser",
+    "For every accepted grammar of the C18 space the tables recovered from the generated Rust source, the export model JSON and the in-memory analysis results are compared: names, start index, productions, push flags, lookahead automata (identical tables source/model; same language as the analysis automaton on all strings up to k), LR actions via the action index and gotos, scanner modes, built-in rules, error rule, transitions, skip lists, index ranges.",
+    "the generated source is read with syn; the export model through serde_json")
+add("C25", "exploration", "bounded exhaustive enumeration of annotated grammars; render + re-read structural equality",
+    "Bodies x terminal pairs x per-symbol decorations (^, @member, : type) x declaration headers x LL/LALR, two-state scanner configurations with every directive, plus the C18 space: each grammar, as read and after transformation, is rendered with render_par_string and read back; start symbol, grammar type, every production symbol (text, kind class, states, clipping, member, user type, lookahead), declarations and every ScannerConfig field must be equal.",
+    "production / symbol attributes other than clipping are rendered as comments by design and are not compared")
+add("C26", "exploration", "bounded exhaustive enumeration of grammar texts at token, production-body, declaration and character level plus deep-nesting families in worker subprocesses; catch_unwind / exit status as oracle",
+    "Six families (PAR token sequences, production bodies from a menu incl. broken literals and undefined names, declaration lists incl. duplicates and undefined references, every BNF/EBNF grammar of the small spaces well-formed or not, character strings, m-fold nesting in subprocesses with the CLI's stack size), each through the whole pipeline for LL and LALR with K in {1,2,10}: every stage must return Ok or Err.",
+    "pipeline driven through the public API used by Builder/CLI; debug assertions and overflow checks enabled in the harness build")
+add("C31", "exploration", "exhaustive enumeration of sequence pairs against a textbook DP",
+    "All ordered pairs of token-type sequences over 3 symbols up to length 5 (thorough 6) and over 4 symbols up to length 4 (5) are given to the crate-private Recovery::levenshtein_distance (hook H1): the script applied as adjust_token_stream applies it must turn act into exp, its non-keep operations must equal the returned distance, which must equal the DP edit distance.",
+    "hook H1")
+add("C32", "model_checking", "explicit-state BFS over operation sequences on the real packed value next to a Vec model",
+    "For alphabet sizes at both sides of every power of two up to the 12-bit limit a breadth-first search over operation sequences (new, eps, end, clear, push, k_concat with eps/end/a sequence/itself, of) on the real Terminals value; after every operation every observer (len, get, iter, is_eps, is_k_complete, k_len) must agree with the sequence model; all reached values are compared pairwise for equality and ordering; KTuple construction paths and k_concat are checked the same way.",
+    "KTuple equality is demanded only between tuples reporting the same k() (weaker reading)")
+
 NOT_BUILT = {}
 
 def main():
